@@ -35,7 +35,34 @@ const (
 	// long as Item.Val (every byte written twice).  All byte totals are then defined through
 	// ItemValLength, which is what the aggregates must use on every path (C13).
 	CBValDouble CBMask = 1 << 8
+	// CBSwap is a BeforeItemWrite/AfterItemRead pair that changes the record: the item written is a
+	// substitute whose value carries a 4-byte checksum trailer, verified and stripped again after a
+	// read (the compression / integrity-trailer use of these callbacks).  Byte totals are not
+	// compared under it: the store accounts an unwritten item by Item.Val and a written one by its
+	// record, so they depend on when each node was built.
+	CBSwap CBMask = 1 << 9
 )
+
+func swapSum(key, val []byte) [4]byte {
+	h := uint32(2166136261)
+	for _, b := range key {
+		h = (h ^ uint32(b)) * 16777619
+	}
+	for _, b := range val {
+		h = (h ^ uint32(b)) * 16777619
+	}
+	return [4]byte{byte(h >> 24), byte(h >> 16), byte(h >> 8), byte(h)}
+}
+
+// SwapStrip undoes the CBSwap trailer on a value taken from the file; ok=false on a checksum mismatch.
+func SwapStrip(key, disk []byte) ([]byte, bool) {
+	if len(disk) < 4 {
+		return nil, false
+	}
+	v := disk[:len(disk)-4]
+	t := swapSum(key, v)
+	return v, bytes.Equal(t[:], disk[len(disk)-4:])
+}
 
 // ValBytes is the number of bytes a value accounts for under the configured callbacks.
 func (e *Env) ValBytes(v []byte) int {
@@ -57,6 +84,7 @@ func (e *Env) Totals(m *model.Coll) (uint64, uint64) {
 
 // Config selects monitors and modes.
 type Config struct {
+	ReaderInRevert bool // a reader goroutine calls GetCollectionNames in the middle of every FlushRevert
 	MemOnly     bool
 	CB          CBMask
 	Walk        bool // tree walk + free-list reachability via the verif hooks after each step
@@ -137,6 +165,7 @@ type Env struct {
 	depthCache    map[string]int
 	depthEpoch    int64
 	depthName     string
+	swapBad       int64
 	churnStore    *gkvlite.Store
 	churnN        int
 	ScanIters     int64
@@ -148,6 +177,9 @@ func NewEnv(name string, cfg Config) *Env { return NewEnvCmps(name, cfg, nil) }
 
 // NewEnvCmps is NewEnv with per-name comparators.
 func NewEnvCmps(name string, cfg Config, cmps map[string]model.Cmp) *Env {
+	if cfg.CB&CBSwap != 0 {
+		cfg.Decode, cfg.Walk = false, false // both verify the byte aggregates, which CBSwap leaves undefined
+	}
 	if cfg.RefMon {
 		cfg.CB |= CBAlloc | CBRef
 	}
@@ -365,6 +397,26 @@ func (e *Env) callbacks() gkvlite.StoreCallbacks {
 			return i, nil
 		}
 	}
+	if m&CBSwap != 0 {
+		cb.BeforeItemWrite = func(c *gkvlite.Collection, i *gkvlite.Item) (*gkvlite.Item, error) {
+			atomic.AddInt64(&e.cbN[6], 1)
+			t := swapSum(i.Key, i.Val)
+			return &gkvlite.Item{Key: i.Key, Priority: i.Priority, Val: append(append(make([]byte, 0, len(i.Val)+4), i.Val...), t[:]...)}, nil
+		}
+		cb.AfterItemRead = func(c *gkvlite.Collection, i *gkvlite.Item) (*gkvlite.Item, error) {
+			atomic.AddInt64(&e.cbN[7], 1)
+			if i.Val == nil {
+				return i, nil // loaded without its value
+			}
+			v, ok := SwapStrip(i.Key, i.Val)
+			if !ok {
+				atomic.AddInt64(&e.swapBad, 1)
+				return i, fmt.Errorf("harness codec: the %d value bytes read back for key %s do not carry the checksum they were written with", len(i.Val), kvString(i.Key))
+			}
+			i.Val = v
+			return i, nil
+		}
+	}
 	// The comparator callback is needed whenever some collection of the case
 	// uses a custom comparator; with CBCmp it is installed unconditionally.
 	needCmp := m&CBCmp != 0
@@ -536,6 +588,9 @@ func (e *Env) CheckColl(label string, st *gkvlite.Store, c *gkvlite.Collection, 
 			if err != nil {
 				e.Failf("readback/totals-error/"+label, "GetTotals: %v", err)
 				return
+			}
+			if e.Cfg.CB&CBSwap != 0 {
+				b = wb
 			}
 			if n != wn || b != wb {
 				e.Failf("readback/totals-mismatch/"+label, "GetTotals = (%d,%d), model (%d,%d)", n, b, wn, wb)
@@ -814,8 +869,8 @@ func CompareImage(img *decoder.Image, st *model.State) string {
 
 // DecodeCheck decodes the current image and compares with the durable model.
 func (e *Env) DecodeCheck(label string) {
-	if e.F == nil || e.Failed() {
-		return
+	if e.F == nil || e.Failed() || e.Cfg.CB&CBSwap != 0 {
+		return // (the decoder verifies the byte aggregates, which CBSwap leaves undefined)
 	}
 	b := e.F.Bytes()
 	dur := e.M.Durable()
@@ -948,6 +1003,9 @@ func (e *Env) RetryOpen() {
 // NewEnvOnImage opens a store on a copy of img; st is the state the image
 // must show (anyFlush=false: no flush ever completed).
 func NewEnvOnImage(name string, cfg Config, cmps map[string]model.Cmp, img []byte, st *model.State, anyFlush bool) *Env {
+	if cfg.CB&CBSwap != 0 {
+		cfg.Decode, cfg.Walk = false, false
+	}
 	e := &Env{Cfg: cfg, Name: name, H: map[string]*gkvlite.Collection{}, Stats: map[string]int64{}, Cmps: cmps}
 	e.M = &model.Store{Live: st.Clone()}
 	if anyFlush {
